@@ -376,6 +376,36 @@ func checkC16(e *env) {
 		}
 		depth := 1 + e.rng.Intn(3)
 		var desc []string
+		// the same reference system written the other way: "crs": "<uri>" <-> "crs": {"uri": "<uri>"} (also inside boundingBox); what was decoded
+		// before must not decide how a later document comes back, so the built-in documents are run again every now and then
+		if m, ok := tree.(map[string]interface{}); ok && e.rng.Intn(6) == 0 {
+			flip := func(holder map[string]interface{}, where string) {
+				switch c := holder["crs"].(type) {
+				case string:
+					holder["crs"] = map[string]interface{}{"uri": c}
+					desc = append(desc, where+"crs written as {uri}")
+				case map[string]interface{}:
+					if u, ok := c["uri"].(string); ok && len(c) == 1 {
+						holder["crs"] = u
+						desc = append(desc, where+"crs written as a string")
+					}
+				}
+			}
+			if e.rng.Intn(3) != 0 {
+				flip(m, "")
+			}
+			if bb, ok := m["boundingBox"].(map[string]interface{}); ok && e.rng.Intn(2) == 0 {
+				flip(bb, "boundingBox.")
+			}
+			if len(desc) > 0 && e.rng.Intn(2) == 0 {
+				depth = 0
+			}
+		}
+		if it%500 == 499 {
+			for i, d := range docs {
+				one(names[i], d, false)
+			}
+		}
 		// two cooperating edits: an earlier tile matrix takes the id of a later one (the later one wins in the decoded set) and is itself
 		// changed at one place — every array element has to be validated, not only the ones that survive
 		if m, ok := tree.(map[string]interface{}); ok && e.rng.Intn(8) == 0 {
